@@ -11,8 +11,8 @@ import (
 	"fmt"
 	"strings"
 
-	publictypes "lunar/engine/streams/public-types"
 	"lunar/engine/streams/processors"
+	publictypes "lunar/engine/streams/public-types"
 	streamtypes "lunar/engine/streams/types"
 
 	"verif/harness/internal/engine"
@@ -107,8 +107,10 @@ type probe struct {
 	slot string
 }
 
-func (p *probe) GetName() string                                   { return p.name }
-func (p *probe) GetRequirement() *streamtypes.ProcessorRequirement { return &streamtypes.ProcessorRequirement{} }
+func (p *probe) GetName() string { return p.name }
+func (p *probe) GetRequirement() *streamtypes.ProcessorRequirement {
+	return &streamtypes.ProcessorRequirement{}
+}
 
 func (p *probe) Execute(_ string, api publictypes.APIStreamI) (streamtypes.ProcessorIO, error) {
 	sc := cur
